@@ -15,7 +15,7 @@ from harness import wf_common as wc
 LEVEL = "model_checking"
 
 ERR_CLASSES = {  # class flag -> (known id, accepted exception prefixes = the as-built prediction)
-    "cP": ("C03-partial-zip-combine-consumed", ("AttributeError",)),
+    "cP": ("C03-partial-zip-combine-consumed", ("AttributeError", "PydraStateError: splitter has to be")),
     "cI": ("C03-own-split-inherited-combine", ("ValueError: max()",)),
     "cD": ("C03-diamond-multiplies", ("KeyError", "IndexError")),
 }
@@ -71,6 +71,11 @@ def judge(ctx, wf, e, o):
             name = wf["outs"][k]
             nd = wf["nodes"][k]
             predicted = False
+            if c["cP"] and ob_ == [] and ex_ != []:
+                # second as-built signature of the partially-combined-zip finding: the consumer runs no job at all
+                ctx.judge(False, f"node {name}: no job ran", case=case, expected=ex_, observed="no-jobs",
+                          known_id="C03-partial-zip-combine-consumed", asbuilt="no-jobs", node=name)
+                return
             if c["cD"]:
                 # as-built prediction for the recorded finding: the node's jobs are the reference's (or the
                 # unaligned product), and they differ ONLY in what is delivered from upstream nodes
@@ -113,8 +118,8 @@ def run(ctx):
     if ctx.thorough:
         wfs = small + [wc.sample(ctx.rng, 3) for _ in range(1500)] + [wc.sample(ctx.rng, 4) for _ in range(900)]
     else:
-        wfs = ctx.rng.sample(small, 220) + [wc.sample(ctx.rng, 3) for _ in range(170)] + [wc.sample(ctx.rng, 4) for _ in range(90)]
-    wfs += wc.diamond_family()
+        wfs = ctx.rng.sample(small, 400) + [wc.sample(ctx.rng, 3) for _ in range(420)] + [wc.sample(ctx.rng, 4) for _ in range(260)]
+    wfs += wc.diamond_family() + wc.triangle_family()
     wfs = [all_outs(w) for w in wfs]
     # the keyword-only spelling of single-field splitters on a sample
     kw = [dict(w, spelling="kw") for w in ctx.rng.sample(wfs, min(len(wfs), 400 if ctx.thorough else 60))
